@@ -570,6 +570,7 @@ class Lab:
                 self.fail(f"start() of a started screen wrote {data[:40]!r}", {"kind": "start_twice"})
             return
         self.no_placements(what)
+        self.allow_missing = False  # full repaint follows
 
     def stop(self, what="stop()"):
         was_started = self.started
@@ -629,6 +630,7 @@ class Lab:
                     self.fail(f"clear() raised {type(e).__name__}: {e}", {"kind": "exception", "where": "clear", "exc": type(e).__name__})
                 self.pump()
                 self.no_placements("clear()")
+                self.allow_missing = False  # full repaint follows
         elif k == "restart":
             self.trace.append(k)
             if self.started:
@@ -655,6 +657,10 @@ class Lab:
                           {"kind": "exception", "where": "clear_images", "exc": type(e).__name__})
             self.pump()
             self.flags.add("explicit_clear")
+            # The caller asked for the images to be removed; whether a later redraw of unchanged (cached) rows
+            # brings them back is not specified by the property or the documentation. Until the next full
+            # repaint (clear()/start()) only left-over images are judged, missing ones are tolerated.
+            self.allow_missing = True
         elif k == "bad_draw":
             self.bad_draw()
         else:
@@ -833,6 +839,9 @@ class Lab:
             missing = sorted(c for c in g2 if g2[c] != g1.get(c) and set(g2[c]) - set(g1.get(c, ())))
             dup = sorted(c for c in g1 if c in g2 and set(g1[c]) == set(g2[c]) and g1[c] != g2[c])
             kind = "ghost" if ghost and not missing else "missing" if missing and not ghost else "stacked" if dup and not ghost and not missing else "ghost+missing"
+            if kind == "missing" and getattr(self, "allow_missing", False):
+                self.flags.add("missing_after_explicit_clear")
+                return
             c = (ghost or missing or dup)[0]
             protos = sorted({e[1] for e in g1.get(c, ()) + g2.get(c, ())})
 
@@ -847,7 +856,7 @@ class Lab:
         for y in range(vt.rows):
             r1, r2 = vt.grid[y], vt2.grid[y]
             for x in range(vt.cols):
-                if (x, y) in g1:
+                if (x, y) in g1 or ((x, y) in g2 and getattr(self, "allow_missing", False)):
                     continue  # under a graphics placement on both terminals
                 a, b = norm_cell(r1[x]), norm_cell(r2[x])
                 if a != b:
